@@ -36,6 +36,19 @@ Theorem parse_explain_id_fragment_gsub5 :
 Proof. exact parse_explain_gsub5. Qed.
 Print Assumptions parse_explain_id_fragment_gsub5.
 
+(* ... and by GSUB6 (chained contextual substitution) in its three forms:
+   backtrack | input | lookahead over glyph sequences, over classes (with
+   backtrackclass / inputclass / lookaheadclass definitions) and over coverage
+   sets.  This is the whole GSUB grammar of the language.  No glyph may be
+   called like one of the four class keywords. *)
+Theorem parse_explain_id_fragment_gsub_all :
+  forall (U : uclass) (F : font) (ll : list lookup),
+    font_wf U F = true -> no_class_names F = true -> no_chain_names F = true ->
+    Forall (fun lk => gsub_lookup_wf6 F lk = true) ll ->
+    M_parse U F (M_explain_gsub U F ll) = POk ll.
+Proof. exact parse_explain_gsub6. Qed.
+Print Assumptions parse_explain_id_fragment_gsub_all.
+
 (* GPOS side: GPOS1 lookups with one or more subtables (formats 1.1 and 1.2,
    value records over XPlacement, YPlacement, XAdvance), the descriptions
    joined by newlines as the callers of ExplainGpos do *)
